@@ -30,10 +30,7 @@ pub fn prebuilt_t(n: u8, cap: usize) -> LruCache<T, T, BH> {
     let mut c: LruCache<T, T, BH> = LruCache::with_capacity_and_hasher(usize::MAX / 2, cap, BH::default());
     let mut k = 0u8;
     while k < n {
-        let u = UnhingedEntry::new(T::new(k), T::new(4 + k));
-        c.current_size += u.size();
-        let e = Entry::new(u, c.seal, c.seal.get().next);
-        c.insert_untracked(e);
+        link_new(&mut c, UnhingedEntry::new(T::new(k), T::new(4 + k)));
         k += 1;
     }
     c
@@ -226,10 +223,7 @@ fn prebuilt_mixed_v(n: u8) -> LruCache<u8, T, BH> {
     let mut c: LruCache<u8, T, BH> = LruCache::with_capacity_and_hasher(usize::MAX / 2, 4, BH::default());
     let mut k = 0u8;
     while k < n {
-        let u = UnhingedEntry::new(k, T::new(4 + k));
-        c.current_size += u.size();
-        let e = Entry::new(u, c.seal, c.seal.get().next);
-        c.insert_untracked(e);
+        link_new(&mut c, UnhingedEntry::new(k, T::new(4 + k)));
         k += 1;
     }
     c
@@ -238,10 +232,7 @@ fn prebuilt_mixed_k(n: u8) -> LruCache<T, u8, BH> {
     let mut c: LruCache<T, u8, BH> = LruCache::with_capacity_and_hasher(usize::MAX / 2, 4, BH::default());
     let mut k = 0u8;
     while k < n {
-        let u = UnhingedEntry::new(T::new(k), k);
-        c.current_size += u.size();
-        let e = Entry::new(u, c.seal, c.seal.get().next);
-        c.insert_untracked(e);
+        link_new(&mut c, UnhingedEntry::new(T::new(k), k));
         k += 1;
     }
     c
